@@ -47,8 +47,9 @@ def _conv(ev):
     return None
 
 
-def run_milp(case):
-    """every configuration is one call; its trace is: start, the branch-and-bound events of the call (hooks), ret"""
+def run_milp(case, A_obj=None):
+    """every configuration is one call; its trace is: start, the branch-and-bound events of the call (hooks), ret.
+    A_obj: the constraint matrix object to pass (call histories re-solving with the SAME matrix object and another right-hand side)"""
     from solvor import _verif
     from solvor.milp import solve_milp
     A, b, c, ints = case["A"], case["b"], case["c"], case["ints"]
@@ -64,7 +65,8 @@ def run_milp(case):
         events.append({"e": "start", "minimize": minimize})
         _verif.start()
         try:
-            r = solve_milp(list(map(float, c)) if case.get("floats") else list(c), [list(map(float, row)) if case.get("floats") else list(row) for row in A],
+            r = solve_milp(list(map(float, c)) if case.get("floats") else list(c),
+                           A_obj if A_obj is not None else [list(map(float, row)) if case.get("floats") else list(row) for row in A],
                            list(b), [j - 1 for j in ints], minimize=minimize, **kw)
             ev = {"e": "ret", "status": r.status.name, "minimize": minimize, "finite": True, "x": [0] * n, "obj6": 0, "sols": [], "cfg": str(cfg)}
             if r.solution is not None:
@@ -159,6 +161,63 @@ def gen(rng):
         configs.append({"minimize": minimize, "solution_limit": 2})
         configs.append({"minimize": minimize, "solution_limit": 2, "warm": [float(v) for v in feasible_guess]})
     return {"A": A, "b": b, "c": c, "ints": ints, "cv": cv, "ub": ub, "configs": configs, "floats": rng.random() < 0.5}
+
+
+def run_milp_history(case):
+    """a budget sweep: the same model re-solved in one process with the SAME constraint-matrix object and other right-hand sides /
+    objectives (what a user's parameter study does); every call is its own trace and has to be right on its own"""
+    A_obj = [list(row) for row in case["A"]]
+    out = []
+    prev_b = list(case["b"])
+    for var in case["variants"]:
+        c2 = dict(case)
+        c2.update(var)
+        c2.pop("variants", None)
+        if "cut" in var and out:
+            # the budget of one resource row is cut just below what the previous answer uses (the sweep reacts to the last result)
+            rets = [e for e in out[-1]["events"] if e["e"] == "ret" and e.get("finite") and e["status"] in ("OPTIMAL", "FEASIBLE")]
+            b2 = list(prev_b)
+            if rets:
+                x = [v / 1000000 for v in rets[0]["x"]]
+                q = var["cut"] % len(case["A"])
+                use = int(round(sum(a * v for a, v in zip(case["A"][q], x))))
+                b2[q] = max(0, min(b2[q], use - var.get("by", 1)))
+            c2["b"] = b2
+        prev_b = list(c2["b"])
+        out.append(run_milp(c2, A_obj=A_obj))
+        out[-1]["input"] = {"history": case, "index": len(out) - 1}
+        if A_obj != [list(row) for row in case["A"]]:
+            out[-1]["events"].append({"e": "raise", "what": "InputMatrixModified"})
+            A_obj = [list(row) for row in case["A"]]
+    return {"traces": out}
+
+
+def gen_history(rng):
+    """binary multi-resource knapsacks re-solved after budget changes (fixed ones and cuts just below the previous answer's usage)"""
+    n = rng.randint(4, 6)
+    nres = rng.randint(1, 3)
+    rows = [[rng.randint(0, 9 if nres > 1 else 5) for _ in range(n)] for _ in range(nres)]
+    rhs = [rng.randint(max(max(r), 1), max(max(r), 1, sum(r) * 2 // 3)) for r in rows]
+    for j in range(n):
+        row = [0] * n
+        row[j] = 1
+        rows.append(row)
+        rhs.append(1)
+    c = [rng.randint(1, 9) for _ in range(n)]
+    seed = rng.randint(0, 3)
+    variants = [{"b": list(rhs), "c": c}]
+    for _ in range(rng.randint(1, 3)):
+        if rng.random() < 0.7:
+            variants.append({"cut": rng.randrange(nres), "by": rng.choice([1, 2, 3]), "c": c})
+        else:
+            b2 = list(rhs)
+            q = rng.randrange(nres)
+            b2[q] = max(1, rhs[q] + rng.choice([-3, -2, -1, 1, 2]))
+            variants.append({"b": b2, "c": c if rng.random() < 0.7 else [rng.randint(1, 9) for _ in range(n)]})
+    cfgs = [{"minimize": False, "lns_iterations": rng.choice([5, 10]), "seed": seed}]
+    if rng.random() < 0.3:
+        cfgs.append({"minimize": True, "lns_iterations": 3, "seed": seed})
+    return {"A": rows, "b": rhs, "c": c, "ints": list(range(1, n + 1)), "cv": 0, "ub": [1] * n, "configs": cfgs, "floats": False, "variants": variants}
 
 
 def gen_pairrows(rng):
